@@ -46,8 +46,10 @@ def Src.good (valid : Int → Bool) : Src → Option Int
   | .val v => if valid v then some v else none
   | _ => none
 
-def Src.scale (k : Int) : Src → Src
-  | .val v => .val (v * k)
+/-- unit conversion of what the variable provides (`mulMs` for durations: Go's `time.Duration(n)*time.Millisecond`,
+which wraps around for |n| > 9223372036854 — the wrapped value is then judged like any other value) -/
+def Src.map (f : Int → Int) : Src → Src
+  | .val v => .val (f v)
   | s => s
 
 /-- SDK rule. A valid option wins; without an option a valid environment value wins; when neither provides
@@ -75,8 +77,8 @@ def bspOK (i : BspIn) (o : BspOut) : Bool :=
         let qe := ((envInt i.eq).good nonneg).getD 2048
         let be := ((envInt i.eb).good nonneg).getD 512
         o.b == (if be ≤ qe then be else min 512 qe))
-  && precOK anyInt anyInt (i.od.map (· * msNs)) ((envInt i.ed).scale msNs) (5000 * msNs) o.d
-  && precOK anyInt anyInt (i.ot.map (· * msNs)) ((envInt i.et).scale msNs) (30000 * msNs) o.t
+  && precOK anyInt anyInt (i.od.map mulMs) ((envInt i.ed).map mulMs) (5000 * msNs) o.d
+  && precOK anyInt anyInt (i.ot.map mulMs) ((envInt i.et).map mulMs) (30000 * msNs) o.t
 
 /-- the resolved sizes are not negative (the F8 clause) -/
 def bspNonneg (o : BspOut) : Bool := 0 ≤ o.q && 0 ≤ o.b
@@ -121,8 +123,8 @@ def batchGiven (ob : Option Int) (eb : Env) : Option Int :=
 
 def blrpOK (x : BlrpIn) (o : BlrpOut) : Bool :=
   precOK positive positive x.oq (envInt x.eq) 2048 o.q
-  && precOK positive positive x.oi ((envInt x.ei).scale msNs) 1000000000 o.i
-  && precOK positive positive x.ot ((envInt x.et).scale msNs) 30000000000 o.t
+  && precOK positive positive x.oi ((envInt x.ei).map mulMs) 1000000000 o.i
+  && precOK positive positive x.ot ((envInt x.et).map mulMs) 30000000000 o.t
   && precOK positive positive x.obuf .absent 1 o.buf
   -- a batch size that was given is clamped to the queue size; one that was not given is the default
   && (match batchGiven x.ob x.eb with
@@ -147,7 +149,7 @@ def envVal (exp : Exp) (v : Env) : Option Bytes :=
     if t.isEmpty then none else some t
 
 def provTimeout (exp : Exp) (v : Env) : Option Int :=
-  (envVal exp v).bind (fun s => (atoi s).map (· * msNs))
+  (envVal exp v).bind (fun s => (atoi s).map mulMs)
 
 /-- log exporters: `gzip` | `none`, anything else is invalid; trace/metric exporters: `gzip`, any other word = no compression -/
 def provComp (exp : Exp) (v : Env) : Option Bool :=
